@@ -81,6 +81,8 @@ func callOnNet(g trust.HTTPSGetter, f func() error) core.Outcome {
 				out.Leak = fmt.Sprint(pv)
 			}
 		}()
+		core.GlobalCount("fault.net:every_fetch_takes_simulated_time(calls_in_fake_clock_bubble).configured", 1)
+		core.GlobalCount("fault.net:every_fetch_takes_simulated_time(calls_in_fake_clock_bubble).fired", 1)
 		synctest.Test(BubbleTB, func(*testing.T) {
 			p.InBubble = true
 			defer func() { p.InBubble = false }()
